@@ -162,6 +162,34 @@ def run_job(job):
                     res.count("arithmetic_over_aggregates_checked")
             if bad:
                 continue
+            # grouping keys need not be selected: the same query with some (or all) keys left out of the select list prints
+            # the same group rows without those cells
+            if rng.random() < 0.4:
+                hide = set(rng.sample(range(len(keys)), rng.randint(1, len(keys))))
+                keep = [i for i in range(len(cols)) if i not in hide]
+                qh = "%s from %s%s %s %s into list" % (", ".join(cols[i] for i in keep), frm, wtxt, gb, ", ".join(keys))
+                rh = run(qh)
+                ctx_h = dict(ctx, hidden_key_query=qh, hidden_result=rh.brief())
+                if rh.verdict != "ok":
+                    res.viol("busy loop on `%s`" % qh, ctx_h) if rh.verdict == "busy" else res.inc("watchdog")
+                    continue
+                if rh.rc != 0 or rh.err or rh.panicked:
+                    res.viol("`%s`: status %s stderr %r" % (qh, rh.rc, rh.err[:150]), ctx_h)
+                    continue
+                try:
+                    outh = rh.rows(len(keep)) if rh.out else []
+                except ValueError as e:
+                    res.viol("`%s`: undecodable grouped output (%s)" % (qh, e), ctx_h)
+                    continue
+                if len(keep) == 1:
+                    outh = [(x,) for x in outh]
+                want_h = sorted(tuple(row[i] for i in keep) for row in out)
+                if sorted(tuple(r_) for r_ in outh) != want_h:
+                    res.viol("`%s` prints %d group rows %s; with every key selected the same grouping prints %d rows %s" % (
+                        qh, len(outh), sorted(tuple(r_) for r_ in outh)[:3], len(out), want_h[:3]), ctx_h)
+                    continue
+                res.count("unselected_keys_compared")
+                res.cover("unselected_keys", ",".join(keys[i] for i in sorted(hide)))
             # conservation against the ungrouped aggregate query
             if "count" in fns or "sum" in fns:
                 qa = "count(*), sum(%s) from %s%s into list" % (inner, frm, wtxt)
@@ -258,5 +286,5 @@ def main(chk):
              "(keys, functions, where, order, groups).",
         assumptions=["group rows may come in any order unless ORDER BY is given", "numeric order keys compare as numbers, others by code point",
                      "sample statistics of single-row groups are don't-care"],
-        require={"from": 9, "keys": 10, "order_kinds": 6, "conservation_checked": 20, "restricted_compared": 20},
+        require={"from": 9, "keys": 10, "order_kinds": 6, "conservation_checked": 20, "restricted_compared": 20, "unselected_keys_compared": 20},
     )
